@@ -707,17 +707,14 @@ C09OK(e) ==
       FarIn(p) == FarClosed(p, subj, Band4) /\ FarClosed(p, clip, Band4) IN
   \* open paths never appear in, or alter, the closed solution
   /\ Dt("C09.closed-region", \A n \in 1..Len(e.probes) : RegionOKAt(e.ct, e.fr, subj, clip, e.sol, e.probes[n]))
-  \* ... nor appear in it: a closed result path without area whose vertices all lie on the open subject lines (an
-  \* open line returned as a polygon) must also be returned, vertex for vertex, by the same call made without the
-  \* open paths (e.solClosed).  Exact equality
-  \* of the two closed solutions is not demanded: the vertices of open paths add scan-lines, so intersection
-  \* points of closed edges may be rounded one unit differently (measured: 1.2% of calls), inside the band
-  /\ Dt("C09.closed-degenerate", \A n \in 1..Len(e.sol) :
-          (Len(e.sol[n]) < 3 \/ Area2(e.sol[n]) = 0) =>
-             \/ \E m \in 1..Len(e.solClosed) : SameCyclic(e.solClosed[m], e.sol[n])
-             \* (the extra scan-lines of the open vertices can also leave a different zero-area artefact of the CLOSED
-             \*  paths behind; it is an open line only if every vertex of it lies on the open subject lines)
-             \/ \E i \in 1..Len(e.sol[n]) : FarOpen(e.sol[n][i], open, Band4))
+  \* ... nor appear in it: every vertex of the closed solution is a vertex of a closed input path or an intersection
+  \* point of closed input edges, so it lies within the (3-unit) band of a closed input edge; a vertex of an open
+  \* line that is far from every closed edge cannot be in the closed solution.  (Zero-area artefacts of the closed
+  \* paths themselves do occur, and differ with and without the open paths' extra scan-lines: 1.2 % of calls differ
+  \* by such rounding effects, so neither exact equality with the open-free run (e.solClosed) nor absence of
+  \* degenerate paths is demanded.)
+  /\ Dt("C09.closed-vertices", \A n \in 1..Len(e.sol) : \A i \in 1..Len(e.sol[n]) :
+          ~(FarClosed(e.sol[n][i], subj, 12) /\ FarClosed(e.sol[n][i], clip, 12)))
   \* the open solution consists of sub-polylines of the subject lines
   \* (a piece may degenerate to a single point where a line only touches the region)
   /\ \A j \in 1..Len(e.solOpen) : Dt(<<"C09.subpolyline", j>>,
